@@ -617,6 +617,17 @@ func c11Exhaustive(tier string) []corr.Case {
 				cases = append(cases, corr.Case{Lines: l})
 			}
 		}
+		// … and on a directory with a CACHED FILE below it whose own cache entry has become outdated; the whole directory is
+		// removed through the cache afterwards: nothing of it may stay behind in the cache layer
+		for _, op := range []string{"chmod %s 448", "chown %s 1 1", "chtimes %s -50", "openfile %s 2 420", "mkdir %s 493", "stat %s", "remove %s"} {
+			for _, rm := range []string{"removeall " + h("/d/sub"), "removeall " + h("/d"), "rename " + h("/d/sub") + " " + h("/e")} {
+				l := []string{fmt.Sprintf("case cache-mem %d", dur), "b.mkdirall " + h("/d/sub") + " 493", "b.create " + h("/d/sub/f"), "h.write 0 6c696e65", "h.close 0",
+					"b.chtimes " + h("/d/sub/f") + " -30000", "open " + h("/d/sub/f"), "h.read 1 16", "h.close 1",
+					"l.chtimes " + h("/d/sub") + " -20000", "b.chtimes " + h("/d/sub") + " -9000",
+					fmt.Sprintf(op, h("/d/sub")), "snapshot", "cohere", rm, "stat " + h("/d/sub/f"), "stat " + h("/e/f"), "snapshot", "cohere"}
+				cases = append(cases, corr.Case{Lines: l})
+			}
+		}
 	}
 	return cases
 }
